@@ -73,3 +73,12 @@ CASES += [
          old="   auto  duration = mTimestamp.time_since_epoch();\n   return std::chrono::duration_cast< std::chrono::milliseconds>( duration).",
          new="   return std::chrono::duration_cast< std::chrono::milliseconds>( mTimestamp.time_since_epoch())."),
 ]
+
+CASES += [
+    dict(id='c16-level-text-memoised', prop='C16', file=F, expect='R6',
+         old="         formatDateTime( dest, field_def, \"%F\", msg.getTimestamp());",
+         new="         {\n            static const time_t  first_stamp = msg.getTimestamp();\n            formatDateTime( dest, field_def, \"%F\", first_stamp);\n         }"),
+    dict(id='c16-eq-static-constant-text', prop='C16', file=F, expect=None,
+         old="         formatDateTime( dest, field_def, \"%F\", msg.getTimestamp());",
+         new="         {\n            static const char* const  date_format = \"%F\";\n            formatDateTime( dest, field_def, date_format, msg.getTimestamp());\n         }"),
+]
